@@ -121,21 +121,20 @@ impl Queue {
         Poll::Pending
     }
 
+    /// Check if the queue is empty. If it is, the task is woken by the next push to any of the
+    /// inner queues.
+    pub(crate) fn poll_is_empty(&mut self, cx: &mut Context) -> bool {
+        // Evaluate all three so that the waker is registered with every empty inner queue.
+        let priority = self.priority.poll_is_empty(cx);
+        let control = self.control.poll_is_empty(cx);
+        let non_priority = self.non_priority.poll_is_empty(cx);
+        priority && control && non_priority
+    }
+
     /// Check if the queue is empty.
+    #[cfg(test)]
     pub(crate) fn is_empty(&self) -> bool {
-        if !self.priority.is_empty() {
-            return false;
-        }
-
-        if !self.control.is_empty() {
-            return false;
-        }
-
-        if !self.non_priority.is_empty() {
-            return false;
-        }
-
-        true
+        self.priority.is_empty() && self.control.is_empty() && self.non_priority.is_empty()
     }
 
     /// Returns the length of the priority queue.
@@ -262,10 +261,22 @@ impl Shared {
         shared.queue.retain(f);
     }
 
+    /// Check if the queue is empty, registering the task to be woken by the next push if it is.
+    pub(crate) fn poll_is_empty(&mut self, cx: &mut Context) -> bool {
+        let mut guard = self.inner.lock().expect("lock to not be poisoned");
+        if guard.queue.is_empty() {
+            guard.pending_pops.insert(self.id, cx.waker().clone());
+            true
+        } else {
+            false
+        }
+    }
+
     /// Check if the queue is empty.
+    #[cfg(test)]
     pub(crate) fn is_empty(&self) -> bool {
         let guard = self.inner.lock().expect("lock to not be poisoned");
-        guard.queue.len() == 0
+        guard.queue.is_empty()
     }
 
     /// Returns the length of the queue.
